@@ -212,11 +212,49 @@ func splice(r *vh.Rand, in input) ([]byte, string) {
 	return out, t.String() + "-opts[" + strings.Join(desc, ",") + "]"
 }
 
+// hbhSplice inserts a hop-by-hop extension header behind the first IPv6 header that has none (next
+// header and payload length adjusted), half of the time followed by link-layer padding behind the packet.
+func hbhSplice(r *vh.Rand, in input) ([]byte, string) {
+	off, _, _ := locate(in, layers.LayerTypeIPv6)
+	d := in.data
+	if off < 0 || off+40 > len(d) || d[off+6] == 0 {
+		return nil, ""
+	}
+	k := r.Intn(4)
+	hbh := [][]byte{{0, 0, 1, 4, 0, 0, 0, 0}, {0, 0, 5, 2, 0, 0, 1, 0}, {0, 1, 1, 12, 0, 0, 0, 0, 0, 0, 0, 0, 0, 0, 0, 0},
+		{0, 0, 0xc2, 4, 0, 0, 0, 0}}[k]
+	out := append([]byte(nil), d[:off+40]...)
+	out = append(out, hbh...)
+	out[off+40] = d[off+6]
+	out[off+6] = 0
+	m := "ip6-hbh"
+	if v := int(out[off+4])<<8 | int(out[off+5]); v != 0 {
+		v += len(hbh)
+		if k == 3 { // jumbogram: length 0 in the fixed header, 64 KiB + the real one in the option (a capture cut short)
+			out[off+44], out[off+45], out[off+46], out[off+47] = 0, 1, byte(v>>8), byte(v)
+			v = 0
+			m = "ip6-jumbo"
+		}
+		out[off+4], out[off+5] = byte(v>>8), byte(v)
+	}
+	out = append(out, d[off+40:]...)
+	if r.Bool() {
+		out = append(out, r.Bytes(1+r.Intn(30))...)
+		m += "+trailer"
+	}
+	return out, m
+}
+
 // variant derives one mutated input (or returns the input itself).
 func variant(r *vh.Rand, in input) input {
-	switch k := r.Intn(10); {
+	switch k := r.Intn(13); {
 	case k < 3:
 		return in
+	case k >= 10:
+		if d, m := hbhSplice(r, in); d != nil {
+			return input{in.name + "~" + m, in.first, d}
+		}
+		fallthrough
 	case k < 6:
 		if d, m := splice(r, in); d != nil {
 			out := input{in.name + "~" + m, in.first, d}
